@@ -73,6 +73,17 @@ def gen_table(rng, cls, T, K):
         C = rng.normal(size=(T, K))
         C[rng.random((T, K)) < 0.2] *= 1e12
         return C
+    if cls == "weak_evidence":
+        # long regimes that differ only slightly per point: where to switch is decided by sums over thousands of points
+        C = rng.normal(size=(T, K)) * 0.3
+        t = 0
+        k = 0
+        while t < T:
+            L = int(rng.integers(800, 3000))
+            C[t:t + L, k] -= 0.15
+            t += L
+            k = (k + 1) % K
+        return C
     if cls == "tiny_units":
         return rng.normal(size=(T, K)) * float(2.0 ** -int(rng.integers(35, 70)))       # the whole problem far below 1e-9
     if cls == "int_table":
@@ -92,6 +103,8 @@ def gen_beta(rng, form, T, C, exact):
             v[rng.random(T) < 0.2] = 0.0
             return v
         return float(rng.uniform(0, 1.5) * unit)
+    if C.shape[0] > 4000 and form in ("float", "np.float64", "big_scalar") and float(np.std(C)) < 0.5 and not exact:
+        return float(rng.choice([20.0, 60.0, 150.0]))                                   # large penalty against weak per-point evidence
     if np.asarray(C).dtype.kind in "iu" and form in ("float", "np.float64") and not exact:
         return float(rng.integers(0, 8)) / 4.0 + 0.25                               # fractional beta on an integer table
     if form == "float":
@@ -300,7 +313,7 @@ def run_random(spec, res, kernel):
             T, K, cls2 = int(rng.integers(1, 12)), 1, "gauss"
         elif u < 0.034 and not spec.get("jit_bc"):
             # very long tables (size-threshold paths, accumulated rounding)
-            T, K, cls2 = int(rng.choice([4097, 10000, 20011])), int(rng.integers(2, 4)), ["gauss", "smallint", "dyadic"][int(rng.integers(0, 3))]
+            T, K, cls2 = int(rng.choice([4097, 10000, 20011])), int(rng.integers(2, 4)), ["gauss", "smallint", "dyadic", "weak_evidence", "weak_evidence"][int(rng.integers(0, 5))]
             res.count("long_tables")
         elif u < 0.06:
             # many clusters: labels beyond 255 / 65535-safe storage of back-pointers
